@@ -179,7 +179,7 @@ class FrontMatterExtension(ParserExtension):
             joined_lines = "\n".join(collected_lines)
             loaded_document = yaml.load(joined_lines, SafeLoader)
             did_load_as_yaml = not isinstance(loaded_document, str)
-        except yaml.MarkedYAMLError:
+        except yaml.YAMLError:
             did_load_as_yaml = False
 
         # This is specifically to trigger test_front_matter_20.
